@@ -6,6 +6,11 @@ import common
 from common import compile_many, Report, EngineError
 
 
+def code_hash(c):
+    import hashlib
+    return hashlib.sha1('\n'.join('%s:\n%s' % (f, '\n'.join(strip_text(c.funcs[f]['lines']))) for f in c.order if c.funcs[f]['has_code']).encode()).hexdigest()[:8]
+
+
 def strip_text(lines):
     return [l for l in lines if not l.startswith(';') and l.strip() != '']
 
@@ -39,6 +44,8 @@ def _task(t):
             res.update(verdict='noasm_b', msg=str(e)); return res
         for k, val in o.get('assume_regs', {}).items():
             S.assume(z3.BitVec(k + '0', 8) == val, ('reg', k, val))
+        for k, val in o.get('assume_lt', {}).items():
+            S.assume(z3.ULT(z3.BitVec(k[0] + '0', 8), val), ('reglt', k, val))
         out = S.compare(va, vb, t['names'], events=o.get('events', False))
         res.update(verdict=out.verdict, queries=S.queries, solver_s=round(S.solver_s, 3), pairs=getattr(out, 'pairs', 0),
                    bound_hits=getattr(out, 'bound_hits', 0), paths=getattr(out, 'paths', None))
@@ -46,7 +53,7 @@ def _task(t):
             ok, detail = confirm(S, out, va, vb, t['names'], events=o.get('events', False))
             res['confirmed'] = ok
             res['detail'] = detail
-            if not ok: res['verdict'] = 'unconfirmed_' + out.verdict
+            if not ok: res['verdict'] = ('bound_mismatch' if out.verdict == 'termdiff' else 'unconfirmed_' + out.verdict)
     except Unsupported as e:
         res.update(verdict='unsupported', msg=str(e))
     except Exception as e:
@@ -63,17 +70,20 @@ def run_tasks(tasks, jobs=None):
         return list(pool.imap_unordered(_task, tasks, chunksize=4))
 
 
-def relational(report, progs, variants, base_label, names_fn=None, opts=None, key_fn=None, what='', args_base=()):
+def relational(report, progs, variants, base_label, names_fn=None, opts=None, key_fn=None, what='', args_base=(), reject_is_violation=False):
     """progs: iterable of cast.Prog (or objects with pid, c(), gnames()).
     variants: list of (label, args list, transform(src)->src or None). The first entry is the base.
     Returns stats Counter. Violations are added to report."""
     progs = list(progs)
     reqs = []
     srcs = {}
+    vfn = variants if callable(variants) else (lambda p: variants)
+    pv = {}
     for p in progs:
         src = p.c()
         srcs[p.pid] = src
-        for label, args, tr in variants:
+        pv[p.pid] = list(vfn(p))
+        for label, args, tr in pv[p.pid]:
             s2 = tr(p) if tr else src
             if s2 is None: continue
             reqs.append(('%s@%s' % (p.pid, label), list(args_base) + list(args), s2))
@@ -95,7 +105,7 @@ def relational(report, progs, variants, base_label, names_fn=None, opts=None, ke
             stats['base_nomain'] += 1; continue
         stats['accepted'] += 1
         names = names_fn(p) if names_fn else p.gnames()
-        for label, args, tr in variants:
+        for label, args, tr in pv[p.pid]:
             if label == base_label: continue
             rid = '%s@%s' % (p.pid, label)
             if rid not in R: continue
@@ -106,6 +116,10 @@ def relational(report, progs, variants, base_label, names_fn=None, opts=None, ke
                 stats['variant_' + str(c.status)] += 1
                 if c.status in ('panic', 'timeout', 'crash'):
                     stats['variant_crash'] += 1
+                if reject_is_violation:
+                    report.violation('reject:%s@%s' % (p.pid, label), '%s: accepted as %s but %s as %s: %s' % (p.pid, base_label, c.status, label, c.msg),
+                                     dict(kind='tv-reject', pid=p.pid, base=base_label, variant=label, args_variant=list(args_base) + list(args),
+                                          source_base=reqsrc['%s@%s' % (p.pid, base_label)], source_variant=reqsrc[rid], status=c.status, msg=c.msg))
                 continue
             if same_text(base, c):
                 stats['identical_by_text'] += 1; continue
@@ -121,7 +135,7 @@ def relational(report, progs, variants, base_label, names_fn=None, opts=None, ke
         t = tmap[(r['pid'], r['label'])]
         if r['verdict'] in ('diff', 'termdiff'):
             stats['disagreements_checked'] += 1
-            key = (key_fn(r['pid'], r['label']) if key_fn else '%s@%s' % (r['pid'], r['label']))
+            key = (key_fn(r['pid'], r['label']) if key_fn else '%s@%s#%s' % (r['pid'], r['label'], code_hash(common.Compiled(t['jb']))))
             rep = dict(kind='tv-relational', pid=r['pid'], base=base_label, variant=r['label'], source_base=t['src_a'], source_variant=t['src_b'],
                        args_variant=t['args_b'], initial_state=r['detail'].get('regs'), memory=r['detail'].get('mem'),
                        differences=r['detail'].get('diffs'), termination=r['detail'].get('termination'),
@@ -133,12 +147,137 @@ def relational(report, progs, variants, base_label, names_fn=None, opts=None, ke
             report.inconc('model for %s@%s did not reproduce concretely (engine error)' % (r['pid'], r['label']))
         elif r['verdict'] == 'engine_error':
             report.inconc('engine error on %s@%s: %s' % (r['pid'], r['label'], r.get('msg', '')[-300:]))
-        elif r['verdict'] in ('noasm_a', 'noasm_b'):
+        elif r['verdict'] == 'noasm_a':
+            stats['base_does_not_assemble'] += 1      # reported by C01 (reference check), not a relational difference
+        elif r['verdict'] == 'noasm_b':
             stats['does_not_assemble'] += 1
             key = 'noasm:%s@%s' % (r['pid'], r['label'] if r['verdict'] == 'noasm_b' else base_label)
             report.violation(key, '%s: emitted code does not assemble: %s' % (r['pid'], r.get('msg')),
                              dict(kind='tv-noasm', pid=r['pid'], source=t['src_b' if r['verdict'] == 'noasm_b' else 'src_a'], msg=r.get('msg')))
         if len(samples) < 6 and r['verdict'] == 'equal':
             samples.append(dict(program=t['src_a'], base=base_label, variant=r['label'], verdict='equivalent for all initial states',
+                                paths=r.get('paths'), queries=r.get('queries'), solver_s=r.get('solver_s')))
+    return stats, samples, results
+
+
+# ----------------------------------------------------------------------------------------------- reference (C01)
+def _task_ref(t):
+    import z3
+    from equiv import Session, run_concrete, concrete_obs, PTR_LO, PTR_HI
+    from sym6502 import Unsupported, AsmError, bv8, is_c
+    t0 = time.time()
+    res = dict(pid=t['pid'], label=t['label'])
+    try:
+        c = common.Compiled(t['j'])
+        prog = t['prog']
+        o = t.get('opts', {})
+        verdicts = {}
+        for mode in ('ISO', 'W8'):
+            S = Session(max_back=o.get('max_back', 40), max_steps=o.get('max_steps', 3000), max_paths=o.get('max_paths', 300))
+            try:
+                v = S.variant(c)
+            except AsmError as e:
+                res.update(verdict='noasm', msg=str(e)); return res
+            ref = S.run_ref(v, prog, mode, hw_names=o.get('hw_names'))
+            out = S.compare(v, v, prog.gnames(), runs_a=ref)
+            res['queries'] = res.get('queries', 0) + S.queries; res['solver_s'] = round(res.get('solver_s', 0) + S.solver_s, 3)
+            verdicts[mode] = out.verdict
+            res['paths'] = getattr(out, 'paths', None); res['bound_hits'] = getattr(out, 'bound_hits', 0)
+            if out.verdict == 'equal':
+                res['verdict'] = 'equal'; res['mode'] = mode; break
+            # replay: machine concretely, reference by evaluating its path terms under the model
+            regs, mem = S.concretize(out.model, (v,))
+            det = dict(regs=regs, mode=mode, kind=out.verdict)
+            if out.verdict == 'diff':
+                sm = run_concrete(v, regs, mem)
+                m = out.model
+                ra = out.a
+                refobs = {}
+                for n, a, nb, vv in v.layout.ram:
+                    if n in prog.gnames():
+                        for k in range(nb): refobs['%s+%d' % (n, k)] = m.eval(bv8(ra.M.load(a + k)), model_completion=True).as_long()
+                refobs['X'] = m.eval(bv8(ra.X), model_completion=True).as_long(); refobs['Y'] = m.eval(bv8(ra.Y), model_completion=True).as_long()
+                for a in range(PTR_LO, PTR_HI + 1):
+                    refobs['mem[%04x]' % a] = m.eval(bv8(ra.M.load(a)), model_completion=True).as_long()
+                if sm is None:
+                    det['termination'] = 'emitted code does not terminate, reference does'; det['confirmed'] = True
+                else:
+                    mo = concrete_obs(v, prog.gnames(), sm)
+                    diffs = {k: dict(expected=refobs[k], got=mo[k]) for k in refobs if refobs[k] != mo.get(k)}
+                    det['diffs'] = dict(list(diffs.items())[:10]); det['confirmed'] = bool(diffs)
+                det['mem'] = {('%04x' % a): x for a, x in mem.items() if x != 0 and (0x80 <= a < 0x200 or a >= 0x1000)}
+            else:
+                sm = run_concrete(v, regs, mem, max_steps=300000)
+                det['termination'] = 'who=%s' % out.who; det['confirmed'] = (sm is None) == (out.who == 'b')
+            res.setdefault('details', {})[mode] = det
+            if not det['confirmed']:
+                res['verdict'] = 'unconfirmed'; return res
+        else:
+            res['verdict'] = 'diff'
+        res['verdicts'] = verdicts
+    except Unsupported as e:
+        res.update(verdict='unsupported', msg=str(e))
+    except Exception as e:
+        res.update(verdict='engine_error', msg=traceback.format_exc()[-1500:])
+    res['wall'] = round(time.time() - t0, 3)
+    return res
+
+
+def against_reference(report, progs, levels=(('O1', ['-O1']), ('O0', ['-O0'])), opts=None, key_fn=None, jobs=None):
+    progs = list(progs)
+    reqs = []
+    for p in progs:
+        src = p.c()
+        for label, args in levels:
+            reqs.append(('%s@%s' % (p.pid, label), list(args), src))
+    t0 = time.time()
+    R = compile_many(reqs)
+    stats = collections.Counter(); stats['compile_s'] = round(time.time() - t0, 1)
+    tasks, samples = [], []
+    for p in progs:
+        stats['programs'] += 1
+        first = True
+        prev = None
+        for label, args in levels:
+            c = R['%s@%s' % (p.pid, label)]
+            if c.status != 'ok':
+                if first: stats['rejected_' + str(c.status)] += 1
+                first = False; continue
+            if 'main' not in c.funcs: continue
+            if first: stats['accepted'] += 1
+            first = False
+            if prev is not None and same_text(prev, c):
+                stats['identical_to_previous_level'] += 1; continue
+            prev = c
+            tasks.append(dict(pid=p.pid, label=label, j=c.j, prog=p, opts=opts or {}, src=p.c(), args=list(args)))
+    tmap = {(t['pid'], t['label']): t for t in tasks}
+    t1 = time.time()
+    ctx = multiprocessing.get_context('fork')
+    with ctx.Pool(jobs or common.NCPU) as pool:
+        results = list(pool.imap_unordered(_task_ref, tasks, chunksize=4))
+    stats['solve_wall_s'] = round(time.time() - t1, 1)
+    for r in results:
+        stats['decided' if r['verdict'] == 'equal' else r['verdict']] += 1
+        if r['verdict'] == 'equal' and r.get('mode') == 'W8': stats['equal_only_under_W8'] += 1
+        stats['queries'] += r.get('queries', 0); stats['solver_s'] += r.get('solver_s', 0); stats['bound_hits'] += r.get('bound_hits', 0) or 0
+        t = tmap[(r['pid'], r['label'])]
+        if r['verdict'] == 'diff':
+            stats['disagreements_checked'] += 1
+            c = common.Compiled(t['j'])
+            key = '%s@%s#%s' % (r['pid'], r['label'], code_hash(c))
+            d = r['details']
+            rep = dict(kind='tv-reference', pid=r['pid'], level=r['label'], args=t['args'], source=t['src'], details=d, code={f: c.funcs[f]['lines'] for f in c.order})
+            report.violation(key, '%s (%s): emitted code differs from the C meaning (both readings); ISO: %s %s' % (
+                r['pid'], r['label'], d['ISO'].get('regs'), d['ISO'].get('diffs') or d['ISO'].get('termination')), rep)
+        elif r['verdict'] == 'unconfirmed':
+            stats['disagreements_checked'] += 1
+            report.inconc('model for %s@%s did not reproduce concretely (engine error): %s' % (r['pid'], r['label'], json.dumps(r.get('details'), default=str)[:300]))
+        elif r['verdict'] == 'engine_error':
+            report.inconc('engine error on %s@%s: %s' % (r['pid'], r['label'], r.get('msg', '')[-400:]))
+        elif r['verdict'] == 'noasm':
+            report.violation('noasm:%s@%s#%s' % (r['pid'], r['label'], code_hash(common.Compiled(t['j']))), '%s: emitted code does not assemble: %s' % (r['pid'], r.get('msg')),
+                             dict(kind='tv-noasm', pid=r['pid'], source=t['src'], msg=r.get('msg')))
+        if len(samples) < 8 and r['verdict'] == 'equal' and (r.get('queries') or 0) > 0:
+            samples.append(dict(program=t['src'], level=r['label'], verdict='emitted code = C meaning (%s) for all initial states' % r.get('mode'),
                                 paths=r.get('paths'), queries=r.get('queries'), solver_s=r.get('solver_s')))
     return stats, samples, results
